@@ -1,5 +1,6 @@
 # SPDX-FileCopyrightText: 2022 Rot127 <unisono@quyllur.org>
 # SPDX-License-Identifier: LGPL-3.0-only
+import re
 from enum import Enum, auto
 
 from lark import Transformer, Token
@@ -351,7 +352,7 @@ class RZILTransformer(Transformer):
         if ta.value_type.bit_width != 32:
             # Enforce 32bit values for now.
             ta = self.init_a_cast(ValueType(False, 32), ta)
-        return self.chk_hybrid_dep(self.add_op(Jump(f"jump_{ta.pure_var()}", ta)))
+        return self.chk_hybrid_dep(self.add_op(Jump(self.c_identifier(f"jump_{ta.pure_var()}"), ta)))
 
     def nop(self, items):
         return self.add_op(NOP("nop"))
@@ -869,7 +870,7 @@ class RZILTransformer(Transformer):
             # Cast the data type to the mem store type
             data = self.init_a_cast(operation_value_type, data)
         return self.chk_hybrid_dep(
-            self.add_op(MemStore(f"ms_{data.get_name()}", va, data))
+            self.add_op(MemStore(self.c_identifier(f"ms_{data.get_name()}"), va, data))
         )
 
     # SPECIFIC FOR: Hexagon
@@ -881,7 +882,7 @@ class RZILTransformer(Transformer):
         if not isinstance(va, Pure):
             va = self.il_ops_holder.get_op_by_name(va.value)
 
-        return self.add_op(MemLoad(f"ml_{va.get_name()}", va, mem_acc_type))
+        return self.add_op(MemLoad(self.c_identifier(f"ml_{va.get_name()}"), va, mem_acc_type))
 
     def macro_expr(self, items):
         self.ext.set_token_meta_data("macro_expr")
@@ -1132,6 +1133,11 @@ class RZILTransformer(Transformer):
         self.il_ops_holder.rm_op_by_name(a.get_name())
         name = f'const_{"neg" if result < 0 else "pos"}_{result}'
         return Number(name, result, a_type)
+
+    @staticmethod
+    def c_identifier(name: str) -> str:
+        """Names derived from operand names (folded constants, register pairs) must stay valid C identifiers."""
+        return re.sub(r"\W", "_", name)
 
     @staticmethod
     def const_as_type(val: int, val_type: ValueType) -> int:
